@@ -1,5 +1,6 @@
 #!/bin/bash
-# usage: confirm_mutant.sh <Cxx> <n>  -- confirm a seeded change in its scratch worktree /tmp/mut/<Cxx> at /repo's HEAD
+# usage: confirm_mutant.sh <Cxx> <n>  -- confirm a seeded change in its scratch worktree /tmp/mut/<Cxx> at /repo's HEAD:
+#   repo tests pass with the change; the demonstration fails with it and passes without it.
 C=$1; N=$2; W=/tmp/mut/$C; O=$W/out/$N
 LOG=/root/scratch/confirm/$C-$N.log
 exec > $LOG 2>&1
@@ -7,17 +8,21 @@ cd $W || exit 2
 HEAD=$(git -C /repo rev-parse HEAD)
 git checkout -q -- . ; git checkout -q --detach $HEAD || { echo "RESULT checkout-failed"; exit 2; }
 cp /repo/Cargo.lock $W/ 2>/dev/null
-if ! git apply --check $O/patch.diff; then echo "RESULT patch-does-not-apply"; exit 3; fi
-git apply $O/patch.diff
-export CARGO_NET_OFFLINE=true PYO3_PYTHON=/usr/bin/python3
+P=$O/patch.diff; [ -f $O/patch.ported.diff ] && P=$O/patch.ported.diff
+if ! git apply --check $P; then echo "RESULT patch-does-not-apply"; exit 3; fi
+export CARGO_NET_OFFLINE=true PYO3_PYTHON=/usr/bin/python3 CARGO_PROFILE_RELEASE_LTO=off CARGO_PROFILE_RELEASE_CODEGEN_UNITS=16
+build_ext() { (cd $W && cargo build --release --offline --features verif 2>&1 | tail -1 && cp target/release/libgufo_snmp.so src/gufo/snmp/_fast.so); }
+demo() {
+  if [ -f $O/demo.py ]; then (cd $O && PYTHONPATH=$W/src timeout 600 /usr/bin/python3 demo.py);
+  else RUN=$(grep -v '^\s*$' $O/RUN.txt | grep -v '^#' | head -1); timeout 900 bash -c "$RUN"; fi
+}
+git apply $P
 T=$(cargo test --offline 2>&1 | grep "test result" | head -1)
 echo "TESTS_WITH: $T"
-RUN=$(grep -v '^\s*$' $O/RUN.txt | grep -v '^#' | head -1)
-echo "RUN: $RUN"
-timeout 900 bash -c "$RUN" > $O/.with.out 2>&1; RC_WITH=$?
-tail -5 $O/.with.out
+build_ext; demo > $O/.with.out 2>&1; RC_WITH=$?
+tail -4 $O/.with.out
 git checkout -q -- .
-timeout 900 bash -c "$RUN" > $O/.without.out 2>&1; RC_WITHOUT=$?
-tail -3 $O/.without.out
+build_ext; demo > $O/.without.out 2>&1; RC_WITHOUT=$?
+tail -4 $O/.without.out
 rm -rf $W/target $W/src/gufo/snmp/_fast.so $W/out/target $O/target
 echo "RESULT tests=[$T] demo_with_change_rc=$RC_WITH demo_without_change_rc=$RC_WITHOUT"
